@@ -40,9 +40,16 @@ def run():
         runs.append(dict(module="MCNumLit.tla", cfg="MCNumLit.cfg", timeout=2400))
         runs.append(dict(module="MCCodec.tla", cfg="MCCodecQuick.cfg", timeout=1200))
     flow.mc_runs(out, runs)
-    trace = os.path.join(vlib.scratch(), "printread.ndjson")
-    vlib.run_zv(zv, FAMILY, [], trace)
-    cases, v = flow.validate(out, FAMILY, TRACE_SPEC[0], TRACE_SPEC[1], trace, zv, timeout=2400)
+    # the thorough run is recorded and validated in parts (one TLC run holds one part in memory)
+    nparts = 6 if thorough else 1
+    cases, v = {}, {}
+    for part in range(nparts):
+        trace = os.path.join(vlib.scratch(), "printread%d.ndjson" % part)
+        vlib.run_zv(zv, FAMILY, ["-part", str(part), "-nparts", str(nparts)], trace)
+        cs, vs = flow.validate(out, FAMILY, TRACE_SPEC[0], TRACE_SPEC[1], trace, zv, timeout=2400)
+        cases.update(cs)
+        v.update(vs)
+        os.unlink(trace)
     pr = [c for c in cases.values() if c["kind"] == "pr"]
     lit = [c for c in cases.values() if c["kind"] == "lit"]
     judged = [c for c in pr if "unjudged" not in v[c["id"]][1]]
@@ -67,6 +74,7 @@ def run():
                 "seeded spellings drawn from the grammar incl. exact decimal ties between neighbouring floats",
         "print_read_cases": len(pr),
         "read_half_judged": sum(1 for c in judged if c["rdj"]),
+        "save_source_judged": sum(1 for c in judged if c.get("svj")),
         "eval_half_judged": sum(1 for c in judged if c["evj"]),
         "class_member_cases": len(cases) - len(pr) - len(lit),
         "literal_spellings": len(lit),
